@@ -88,6 +88,10 @@ def draw_programs(rng, n_single, n_sweep):
             for wa in ("T", "V"):
                 for _ in range(3):
                     add("un", op, wa, rng.choice(KINDS), "P", "int", False)
+                if rep == 0:
+                    # operand kinds whose promotion matters, always present: bool and the narrow kinds
+                    for k in ("bool", "uchar", "schar", "ushort", "uint"):
+                        add("un", op, wa, k, "P", "int", False)
     # 8-bit exhaustive sweeps
     pool = []
     for op in BIN:
